@@ -129,6 +129,86 @@ func checkOrder(rel, fn, leanName string, markers [][2]string) func() string {
 	}
 }
 
+// statusAfterCall: the HTTP status constant returned by the `if err != nil { return http.StatusX, … }` that follows
+// the assignment calling `callee` in fn.
+func statusAfterCall(rel, fn, callee, leanName string) func() string {
+	return func() string {
+		fd := mustFunc(rel, fn)
+		var found string
+		n := 0
+		ast.Inspect(fd.Body, func(nd ast.Node) bool {
+			b, ok := nd.(*ast.BlockStmt)
+			if !ok {
+				return true
+			}
+			for i, st := range b.List {
+				a, ok := st.(*ast.AssignStmt)
+				if !ok || len(a.Rhs) != 1 || !strings.HasPrefix(callName(a.Rhs[0]), callee) || i+1 >= len(b.List) {
+					continue
+				}
+				is, ok := b.List[i+1].(*ast.IfStmt)
+				if !ok || src(is.Cond) != "err != nil" || len(is.Body.List) == 0 {
+					continue
+				}
+				r, ok := is.Body.List[len(is.Body.List)-1].(*ast.ReturnStmt)
+				if !ok || len(r.Results) < 1 {
+					continue
+				}
+				n++
+				found = src(r.Results[0])
+			}
+			return true
+		})
+		if n != 1 {
+			panic(bail{fmt.Sprintf("%s: expected one `%s(...)` followed by `if err != nil { return status, … }` in %s, found %d", rel, callee, fn, n)})
+		}
+		v, ok := httpStatus[found]
+		if !ok {
+			panic(bail{fmt.Sprintf("%s: unknown status constant %s", rel, found)})
+		}
+		return fmt.Sprintf("/-- generated from %s func %s: status returned when `%s` fails (`%s`) -/\ndef %s : Nat := %d\n", rel, fn, callee, found, leanName, v)
+	}
+}
+
+// loopShape describes the range loop of IsPrecertificate: does the branch for a well-formed poison extension return
+// at once (`return true, nil` inside the loop) or only record it (`found = true`) and go on to the remaining
+// extensions; and what the function returns after the loop.
+func loopShape(rel, fn, leanName string) func() string {
+	return func() string {
+		fd := mustFunc(rel, fn)
+		var loops []*ast.RangeStmt
+		ast.Inspect(fd.Body, func(n ast.Node) bool {
+			if r, ok := n.(*ast.RangeStmt); ok {
+				loops = append(loops, r)
+			}
+			return true
+		})
+		if len(loops) != 1 {
+			panic(bail{fmt.Sprintf("%s: expected one range loop in %s, found %d", rel, fn, len(loops))})
+		}
+		stops, marks := false, ""
+		ast.Inspect(loops[0].Body, func(n ast.Node) bool {
+			switch x := n.(type) {
+			case *ast.ReturnStmt:
+				if len(x.Results) > 0 && src(x.Results[0]) == "true" {
+					stops = true
+				}
+			case *ast.AssignStmt:
+				if len(x.Lhs) == 1 && len(x.Rhs) == 1 && src(x.Rhs[0]) == "true" {
+					marks = src(x.Lhs[0])
+				}
+			}
+			return true
+		})
+		last, ok := fd.Body.List[len(fd.Body.List)-1].(*ast.ReturnStmt)
+		if !ok || len(last.Results) < 1 {
+			panic(bail{fmt.Sprintf("%s: %s does not end in a return", rel, fn)})
+		}
+		return fmt.Sprintf("/-- generated from %s func %s: the loop returns `true` at the first well-formed poison extension -/\ndef %sStopsAtFirst : Bool := %v\n/-- the variable the loop sets to `true` for a well-formed poison extension (\"\" = none) -/\ndef %sMarks : String := %s\n/-- what is returned after the loop -/\ndef %sFinalReturn : String := %s\n",
+			rel, fn, leanName, stops, leanName, strconv.Quote(marks), leanName, strconv.Quote(src(last.Results[0])))
+	}
+}
+
 func init() {
 	cc := "trillian/ctfe/cert_checker.go"
 	hh := "trillian/ctfe/handlers.go"
@@ -186,6 +266,7 @@ func init() {
 		// ---- IsPrecertificate / verifyAddChain
 		{"poisonInvalid", condKernel(cc, "IsPrecertificate", []string{"ext.Critical"}, "poisonInvalid", "(critical valueIsNull : Bool)",
 			Spec{Kind: "i64", Repl: map[string]string{"ext.Critical": "critical", "bytes.Equal(asn1.NullBytes, ext.Value)": "valueIsNull"}})},
+		{"poisonLoop", loopShape(cc, "IsPrecertificate", "poisonLoop")},
 		{"kindMismatch", condKernel(hh, "verifyAddChain", []string{"isPrecert", "expectingPrecert"}, "kindMismatch", "(isPrecert expectingPrecert : Bool)",
 			Spec{Kind: "i64", Repl: map[string]string{"isPrecert": "isPrecert", "expectingPrecert": "expectingPrecert"}})},
 		// ---- x509.CheckSignatureFrom
@@ -203,6 +284,13 @@ func init() {
 			"(childIssuer subject : Nat)", Spec{Kind: "i64", Repl: isv})},
 		{"isValidNotCA", condKernel(vv, "Certificate.isValid", []string{"certType == intermediateCertificate", "c.IsCA"}, "isValidNotCA",
 			"(isIntermediate bcValid isCA : Bool)", Spec{Kind: "i64", Repl: isv})},
+		// ---- x509.CertPool.findPotentialParents: key identifiers first, names only when that found nothing
+		{"fppUseKeyId", condKernel("x509/cert_pool.go", "CertPool.findPotentialParents", []string{"cert.AuthorityKeyId"}, "fppUseKeyId", "(akiPresent : Bool)",
+			Spec{Kind: "i64", Repl: map[string]string{"len(cert.AuthorityKeyId) > 0": "akiPresent"}})},
+		{"fppFallBackToNames", condKernel("x509/cert_pool.go", "CertPool.findPotentialParents", []string{"len(candidates)"}, "fppFallBackToNames", "(noCandidates : Bool)",
+			Spec{Kind: "i64", Repl: map[string]string{"len(candidates) == 0": "noCandidates"}})},
+		// ---- addChainInternal: the status of a chain that verifyAddChain rejects
+		{"verifyFailStatus", statusAfterCall(hh, "addChainInternal", "verifyAddChain", "verifyFailStatus")},
 		{"maxChainSignatureChecks", constKernel(vv, "maxChainSignatureChecks", "maxChainSignatureChecks", intLit)},
 		{"sigBudgetExceeded", condKernel(vv, "Certificate.buildChains", []string{"*sigChecks", "maxChainSignatureChecks"}, "sigBudgetExceeded",
 			"(sigChecks : Int)", Spec{Kind: "i64", Repl: isv})},
